@@ -111,7 +111,8 @@ theorem inv_initFail (hinj : ∀ a b, cfg.packerOf a = cfg.packerOf b → a = b)
   | some s =>
     simp only
     split
-    · exact inv_closeSess hinj hI sid _ s hs rfl (fun _ h => by simp at h)
+    · exact inv_setSess_same_pc hinj hI sid s { s with queue := [], closed := true } hs rfl rfl rfl rfl rfl rfl rfl
+        (fun _ h => by simp at h)
     · exact hI
 
 theorem inv_evict (hinj : ∀ a b, cfg.packerOf a = cfg.packerOf b → a = b) {st : State} (hI : Inv cfg st)
@@ -186,6 +187,21 @@ theorem inv_take (hinj : ∀ a b, cfg.packerOf a = cfg.packerOf b → a = b) {st
               (fun _ _ => rfl) (fun _ h => h) (fun _ h => h) hrest ?_ (Or.inl hcok) (fun w hw => Or.inl hw)
             exact ⟨hup, hqin, port, htg⟩
     next => exact hI
+
+theorem inv_packErr (hinj : ∀ a b, cfg.packerOf a = cfg.packerOf b → a = b) {st : State} (hI : Inv cfg st)
+    (sid : Nat) : Inv cfg (packErr st sid) := by
+  unfold packErr
+  cases hs : st.sess sid with
+  | none => exact hI
+  | some s =>
+    simp only
+    split
+    · cases hqe : s.queue with
+      | nil => exact hI
+      | cons q rest =>
+        exact inv_setSess_same_pc hinj hI sid s { s with queue := rest } hs rfl rfl rfl rfl rfl rfl rfl
+          (fun q' h => by rw [hqe]; exact List.mem_cons_of_mem _ h)
+    · exact hI
 
 theorem inv_resolved (hinj : ∀ a b, cfg.packerOf a = cfg.packerOf b → a = b) {st : State} (hI : Inv cfg st)
     (sid : Nat) (ans : Option IP) : Inv cfg (resolved cfg st sid ans) := by
@@ -285,6 +301,7 @@ theorem inv_step (hinj : ∀ a b, cfg.packerOf a = cfg.packerOf b → a = b) {st
   | initOk sid => exact inv_initOk hinj hI sid
   | initFail sid => exact inv_initFail hinj hI sid
   | take sid => exact inv_take hinj hI sid
+  | packErr sid => exact inv_packErr hinj hI sid
   | resolved sid ans => exact inv_resolved hinj hI sid ans
   | storeIP sid => exact inv_storeIP hinj hI sid
   | readSend sid => exact inv_readSend hinj hI sid
